@@ -1,4 +1,5 @@
 import CircBuf.Lemmas.Tie.PushPop
+import CircBuf.Lemmas.Tie.Remove
 import CircBuf.Lemmas.Tie.Swap
 import CircBuf.Lemmas.Tie.Truncate
 import CircBuf.Props.C01
@@ -93,5 +94,17 @@ theorem C01_clear_src (s : Sys) (h : Inv s.buf) (hf : s.faults.drop = 0) :
   first
   | (rw [tie_clear s h]; exact C01_clear s h hf)
   | (have h0 := C01_clear s h hf; unfold RefinesL at h0 ⊢; rw [tie_clear s h]; exact h0)
+
+theorem C01_remove_src (s : Sys) (i : Nat) (h : Inv s.buf) :
+    Refines (Gen.remove i) s (Spec.remove (abs s.buf) i).2 (Spec.remove (abs s.buf) i).1 := by
+  first
+  | (rw [tie_remove _ s h]; exact C01_remove s i h)
+  | (have h0 := C01_remove s i h; unfold Refines at h0 ⊢; rw [tie_remove _ s h]; exact h0)
+
+theorem C01_make_contiguous_src (s : Sys) (h : Inv s.buf) :
+    ∃ b' v, Gen.make_contiguous s = (.ok v, { s with buf := b' }) ∧ Inv b' ∧ abs b' = abs s.buf ∧
+      b'.cap = s.buf.cap := by
+  first
+  | (rw [tie_make_contiguous s h]; exact C01_make_contiguous s h)
 
 end CircBuf
